@@ -71,14 +71,20 @@ def legal(steps, d):
     cyc = 2
     for st in steps:
         cyc += st.get("gap", 0)
-        kinds = [c["k"] for c in st["cmds"]]
+        real = [c for c in st["cmds"] if not c.get("desel")]
+        kinds = [c["k"] for c in real]
         if len(set(c["ph"] for c in st["cmds"])) != len(st["cmds"]):
             return False
-        if sum(k in ("ACT", "PRE") for k in kinds) > 1 or sum(k in ("RD", "WR") for k in kinds) > 1:
+        if kinds.count("ACT") > 1 or kinds.count("PRE") > 1 or sum(k in ("RD", "WR") for k in kinds) > 1:
             return False
+        if "ACT" in kinds and "PRE" in kinds:
+            a = [c for c in real if c["k"] == "ACT"][0]
+            p_ = [c for c in real if c["k"] == "PRE"][0]
+            if (p_["addr"] >> 10) & 1 or a["bank"] == p_["bank"]:
+                return False
         opened_now = set()
         pre_now = False
-        for c in st["cmds"]:
+        for c in real:
             b = c.get("bank", 0)
             if c["k"] == "ACT":
                 if openrow[b] is not None or cyc < busy[b]:
@@ -95,10 +101,10 @@ def legal(steps, d):
                     if cyc < busy[b]:
                         return False
                     openrow[b] = None
-        for c in st["cmds"]:
+        for c in real:
             b = c.get("bank", 0)
             if c["k"] in ("RD", "WR"):
-                if openrow[b] is None or b in opened_now or pre_now:
+                if openrow[b] is None or b in opened_now or (pre_now and openrow[b] is None):
                     return False
                 if c["k"] == "WR":
                     if c["ph"] != d["wrphase"]:
@@ -167,7 +173,7 @@ def run(scn):
            for p in model.dfi.phases]
     steps = scn["steps"]
     stats = {"acts": 0, "pres": 0, "reads": 0, "writes": 0, "auto_precharges": 0, "masked_writes": 0, "back_to_back_cols": 0,
-             "reads_of_init": 0, "compared": 0}
+             "reads_of_init": 0, "compared": 0, "deselected_noise": 0, "act_and_pre_same_cycle": 0}
     # expand steps into a per-cycle schedule
     sched = {}
     cyc = 2
@@ -177,6 +183,9 @@ def run(scn):
         cyc += st.get("gap", 0)
         for c in st["cmds"]:
             sched.setdefault(cyc, {"cmds": [], "data": None})["cmds"].append(c)
+            if c.get("desel"):
+                stats["deselected_noise"] += 1
+                continue
             if c["k"] == "WR":
                 sched.setdefault(cyc + wl, {"cmds": [], "data": None})["data"] = (c["data"], c.get("mask", 0))
                 stats["writes"] += 1
@@ -210,12 +219,12 @@ def run(scn):
                 ph = phs[c["ph"]]
                 k = c["k"]
                 ras, cas, we = {"ACT": (1, 0, 0), "PRE": (1, 0, 1), "RD": (0, 1, 0), "WR": (0, 1, 1), "REF": (1, 1, 0)}[k]
-                sim.poke(ph["cs_n"], 0); sim.poke(ph["ras_n"], 1 - ras); sim.poke(ph["cas_n"], 1 - cas); sim.poke(ph["we_n"], 1 - we)
+                sim.poke(ph["cs_n"], 1 if c.get("desel") else 0); sim.poke(ph["ras_n"], 1 - ras); sim.poke(ph["cas_n"], 1 - cas); sim.poke(ph["we_n"], 1 - we)
                 sim.poke(ph["bank"], c.get("bank", 0))
                 sim.poke(ph["address"], c.get("addr", 0))
-                if k == "RD":
+                if k == "RD" and not c.get("desel"):
                     sim.poke(ph["rddata_en"], 1)
-                if k == "WR":
+                if k == "WR" and not c.get("desel"):
                     sim.poke(ph["wrdata_en"], 1)
             if e["data"] is not None:
                 data, mask = e["data"]
@@ -300,9 +309,16 @@ def gen(rng, tier, index):
                 openrow = [None] * nbanks
             else:
                 openrow[b] = None
+        # a precharge of another bank may share the cycle with an activate (different phases)
+        if cmds and cmds[0]["k"] == "ACT" and nph > 1 and rng.random() < 0.25:
+            others = [x for x in range(nbanks) if x != cmds[0]["bank"] and openrow[x] is not None and cyc >= busy_until[x]]
+            if others:
+                b3 = rng.choice(others)
+                ph3 = rng.choice([p_ for p_ in range(nph) if p_ != cmds[0]["ph"]])
+                cmds.append({"k": "PRE", "ph": ph3, "bank": b3, "addr": 0})
+                openrow[b3] = None
         # column command slot (a different bank state must already be open before this cycle)
-        opens = [x for x in range(nbanks) if openrow[x] is not None and not any(c["k"] == "ACT" and c["bank"] == x for c in cmds)
-                 and not any(c["k"] == "PRE" for c in cmds)]
+        opens = [x for x in range(nbanks) if openrow[x] is not None and not any(c["k"] == "ACT" and c["bank"] == x for c in cmds)]
         if opens and rng.random() < 0.75:
             b2 = rng.choice(opens)
             colw = rng.choice(hotcols) if rng.random() < 0.7 else rng.randrange(ncolw)
@@ -311,7 +327,7 @@ def gen(rng, tier, index):
                 col = (col & 0x3FF) | ((col >> 10) << 11)
             ap = rng.random() < 0.12
             if rng.random() < 0.5:
-                if d["wrphase"] != (cmds[0]["ph"] if cmds else -1):
+                if d["wrphase"] not in [c["ph"] for c in cmds]:
                     mask = 0
                     if d["we_granularity"] and rng.random() < 0.3:
                         mask = rng.getrandbits(word_bytes)
@@ -322,11 +338,17 @@ def gen(rng, tier, index):
                     if ap:
                         openrow[b2] = None
             else:
-                if d["rdphase"] != (cmds[0]["ph"] if cmds else -1) and cyc > last_wr_cycle + wl + 1:
+                if d["rdphase"] not in [c["ph"] for c in cmds] and cyc > last_wr_cycle + wl + 1:
                     cmds.append({"k": "RD", "ph": d["rdphase"], "bank": b2, "addr": col | ((1 << 10) if ap else 0)})
                     if ap:
                         openrow[b2] = None
                         busy_until[b2] = max(busy_until[b2], cyc + 1)
+        # de-selected phases carrying command-like pin values are not commands
+        used = set(c["ph"] for c in cmds)
+        free = [p_ for p_ in range(nph) if p_ not in used]
+        if cmds and free and rng.random() < 0.15:
+            cmds.append({"k": rng.choice(["RD", "WR", "ACT", "PRE"]), "ph": rng.choice(free), "bank": rng.randrange(nbanks),
+                         "addr": rng.getrandbits(10), "desel": 1})
         if cmds:
             steps.append({"gap": gap, "cmds": cmds})
             cyc += 1
